@@ -21,7 +21,7 @@ func init() {
 			"D1 entry points agree in every store — Add(i) is AddWithCount(i, 1) (delegation in either direction or equal effects after substituting the weight), AddBin(b) has the effects of AddWithCount(b.index, b.count), AddWithCount(_, 0) writes nothing. "+
 			"D2 cached-total coherence in the dense family — every path that adds a weight into the bin array adds the same term to the cached total; when a collapsing adjust folds bins, the range it sums equals the range it resets and the sum goes to the edge bin (or the whole cached total goes to the single remaining bin). "+
 			"D3 iteration contract — in every ForEach each callback verdict immediately controls a return; the dense and paginated iterators skip empty entries; Bins() closes its channel on every exit; ForEach and Bins of the paginated store (twin implementations of the same merge of sorted buffer and pages) yield the same (index, count) terms under the same path conditions. "+
-			"D4 MinIndex/MaxIndex of the dense family and the sparse store return the undefined-index error exactly on the emptiness edge; the sparse store's extremes are folds from the opposite end of the int range that replace the running value exactly when a key lies beyond it, its total is a running sum from 0; the paginated store's extremes read slots of the page table only inside it (by the form of the page number or a taken test), scan every page from its first (MinIndex) resp. last (MaxIndex) line, and compare the page number with the page of the buffered extreme non-strictly. "+
+			"D4 MinIndex/MaxIndex of the dense family and the sparse store return the undefined-index error exactly on the emptiness edge; the sparse store's extremes are folds from the opposite end of the int range that replace the running value exactly when a key lies beyond it, its total is a running sum from 0; the paginated store's extremes read slots of the page table only inside it (by the form of the page number or a taken test), scan every page from its first (MinIndex) resp. last (MaxIndex) line, read every line inside its page (0 ≤ line ≤ len(page) − 1, from the path's comparisons plus: a non-empty page has 1 << log2 lines, x & mask is a line number), leave the table only after its last page, and compare the page number with the page of the buffered extreme non-strictly. "+
 			"D5 window loops of the dense read paths (ForEach, Bins, Encode, encodeSparsely) cover minIndex…maxIndex inclusive (ToProto/EncodeProto/encodeDensely/Reweight are checked by C09/C06/C16). "+
 			"D6 the window-moving primitives of the dense store as linear forms — shiftCounts copies bins[min−off … max−off] to +shift, resets exactly the vacated slots for either sign of the shift and updates offset −= shift; resetBins zeroes bins[from−off … to−off]; centerCounts stores the new window and shifts by offset + len/2 − (newMin + (newMax−newMin+1)/2); truncating integer division is only applied to widths and lengths. "+
 			"D9 page table of the paginated store — the slice of pages and the index of its first page are written only by the page accessor (resolved by role, with the helpers split off it), by Clear, or into a fresh object; elements of a page obtained from the accessor are touched only on paths that created the page (ensureExists is the constant true) or established by its length that it is not empty (Clear keeps emptied slots: a nil test is not enough). "+
@@ -1755,6 +1755,122 @@ func c04PaginatedExtremes(c *Ctx, pr *paginatedRoles, rule string) {
 					if !okFirst {
 						bad = firstNonEmpty(bad, fmt.Sprintf("the scan of a page starts at line %s on [%s]", shorten(a.Args[1].Key(), 60), pathSig(p)))
 					}
+				}
+			}
+			// every line read lies inside its page: 0 ≤ L ≤ len(page) − 1, from the path's own comparisons plus two facts
+			// about the representation — a page that is not empty has exactly 1 << log2 lines (only the accessor gives a
+			// page a length, C04-D9), and a line number x & mask is between 0 and (1 << log2) − 1 (mask = 2^log2 − 1 in the
+			// constructor and in Copy, C14-D2)
+			for _, ld := range p.Loads {
+				a := ld.Addr
+				if a == nil || a.Op != "index" || len(a.Args) != 2 {
+					continue
+				}
+				base := stripVers(a.Args[0])
+				if !(base.Op == "index" && isRecvField(stripVers(base.Args[0]), pagesF)) {
+					continue
+				}
+				nonEmpty := false
+				for _, cd := range p.Conds {
+					if cd.Seq > ld.Seq {
+						continue
+					}
+					t := cd.Term
+					if (t.isBin("==") || t.isBin("!=")) && len(t.Args) == 2 {
+						for i := 0; i < 2; i++ {
+							l := stripVers(stripConv(t.Args[i]))
+							if t.Args[1-i].isConst("0") && l.Op == "builtin" && l.Sym == "len" && stripVers(l.Args[0]).Key() == base.Key() && cd.Taken == t.isBin("!=") {
+								nonEmpty = true
+							}
+						}
+					}
+					if t.isBin("<") && t.Args[0].isConst("0") && cd.Taken {
+						if l := stripVers(stripConv(t.Args[1])); l.Op == "builtin" && l.Sym == "len" && stripVers(l.Args[0]).Key() == base.Key() {
+							nonEmpty = true
+						}
+					}
+				}
+				var axioms []*Linear
+				lineCanon := func(t *Term) *Linear {
+					l := linearOf(stripVers(t))
+					out := &Linear{Coef: map[string]int{}, Atoms: map[string]*Term{}, Exact: l.Exact, Const: l.Const}
+					for k, cf := range l.Coef {
+						at := stripVers(l.Atoms[k])
+						key := at.Key()
+						switch {
+						case at.Op == "builtin" && at.Sym == "len" && len(at.Args) == 1 && stripVers(at.Args[0]).Key() == base.Key() && nonEmpty:
+							key = "plen"
+						case at.isBin("<<") && at.Args[0].isConst("1") && stripVers(at.Args[1]).Op == "field":
+							key = "plen"
+						case at.isBin("&") && (stripVers(at.Args[0]).Op == "field" || stripVers(at.Args[1]).Op == "field"):
+							// a line number: 0 ≤ x & mask ≤ plen − 1
+							axioms = append(axioms, &Linear{Coef: map[string]int{key: 1}, Atoms: map[string]*Term{}, Exact: true})
+							axioms = append(axioms, &Linear{Coef: map[string]int{"plen": 1, key: -1}, Atoms: map[string]*Term{}, Exact: true, Const: -1})
+						}
+						out.Coef[key] += cf
+					}
+					for k, v := range out.Coef {
+						if v == 0 {
+							delete(out.Coef, k)
+						}
+					}
+					return out
+				}
+				L := lineCanon(a.Args[1])
+				var facts []*Linear
+				for _, cd := range p.Conds {
+					if cd.Seq > ld.Seq {
+						continue
+					}
+					t := cd.Term
+					if len(t.Args) != 2 || !(t.isBin("<") || t.isBin("<=")) {
+						continue
+					}
+					x, y := lineCanon(t.Args[0]), lineCanon(t.Args[1])
+					var f0 *Linear
+					switch {
+					case t.isBin("<") && cd.Taken:
+						f0 = linCombine(y, x, -1)
+						f0.Const--
+					case t.isBin("<=") && cd.Taken:
+						f0 = linCombine(y, x, -1)
+					case t.isBin("<") && !cd.Taken:
+						f0 = linCombine(x, y, -1)
+					default:
+						f0 = linCombine(x, y, -1)
+						f0.Const--
+					}
+					facts = append(facts, f0)
+				}
+				facts = append(facts, axioms...)
+				nonNeg := func(l *Linear) bool {
+					for _, v := range l.Coef {
+						if v != 0 {
+							return false
+						}
+					}
+					return l.Const >= 0
+				}
+				proves := func(q *Linear) bool {
+					if nonNeg(q) {
+						return true
+					}
+					for i, f1 := range facts {
+						r1 := linCombine(q, f1, -1)
+						if nonNeg(r1) {
+							return true
+						}
+						for _, f2 := range facts[i+1:] {
+							if nonNeg(linCombine(r1, f2, -1)) {
+								return true
+							}
+						}
+					}
+					return false
+				}
+				up := linCombine(&Linear{Coef: map[string]int{"plen": 1}, Atoms: map[string]*Term{}, Exact: true, Const: -1}, L, -1)
+				if !proves(L) || !proves(up) {
+					bad = firstNonEmpty(bad, fmt.Sprintf("a line is read at %s without the evidence that it lies inside its page (0 ≤ line: %v, line ≤ len(page) − 1: %v) on [%s]", shorten(a.Args[1].Key(), 70), proves(L), proves(up), pathSig(p)))
 				}
 			}
 		}
